@@ -475,7 +475,7 @@ func TestC14(t *testing.T) {
 	if r.Violations() > 0 {
 		return
 	}
-	r.Rapid("vars", kit.Pick(20000, 1000000), func(rt *rapid.T) {
+	r.Rapid("vars", kit.Pick(60000, 2000000), func(rt *rapid.T) {
 		vc := gen.VarsOperation(rt, vs)
 		vars := map[string]interface{}{}
 		defect := ""
